@@ -12,67 +12,67 @@ def repo_commits(prefix):
 P = {
  "C01": (True,
          'runtime monitor: framing assertions (version, type code, header length = bytes = reported size) on the real encoders over generated controller messages',
-         "Tens of thousands (quick) to millions (thorough) of controller-originated messages of every kind, command variant and nesting are built through the public API and encoded by the real code; a monitor asserts version 4, the kind's type code, header length == bytes produced == Len() before and after encoding, also for the message embedded in a bundle-add. Reach comes from shape diversity (delete commands that still carry instructions/buckets, payload absent/empty/raw/typed, near-65535 sizes, reserved port/group values, hardware addresses of other lengths), from top-down builder histories (variable-size actions growing after they were attached) and from multipart requests re-typed after construction.",
+         "Tens of thousands (quick) to millions (thorough) of controller-originated messages of every kind, command variant and nesting are built through the public API and encoded by the real code; a monitor asserts version 4, the kind's type code, header length == bytes produced == Len() before and after encoding, also for the message embedded in a bundle-add. Reach comes from shape diversity (delete commands that still carry instructions/buckets, payload absent/empty/raw/typed, near-65535 sizes, reserved port/group values, hardware addresses of other lengths), from top-down builder histories (variable-size actions growing after they were attached) and from multipart requests re-typed after construction. One recipe in 1021 is a saturated message (a list filled to the frame limit, totals of exactly 65528/65535 bytes); constructor defaults and the constants of the tree under test (value dictionary) are part of the value tables; action-list instructions are also switched between write/apply/clear after they were filled.",
          'Holds for the generated shapes only. Trusts the type-code table (OF1.3.5 7.1) and the reference size used to discard recipes over 65535 bytes.',
          "5/C01"),
  "C02": (True,
          'runtime monitor: every encoding is walked by an independent strict TLV walker; derived length fields are checked after every builder call',
-         "The real encoders' output for generated messages, standalone elements and builder histories is walked by a strict length-driven walker written from the specifications: every declared length, multiple-of-8 rule, zero padding and type/subtype/class/field code is checked and the walk must end exactly at the end of the message. Group-mods are also built top-down; NAT and conntrack builders are driven through double-set and order-dependent histories.",
+         "The real encoders' output for generated messages, standalone elements and builder histories is walked by a strict length-driven walker written from the specifications: every declared length, multiple-of-8 rule, zero padding and type/subtype/class/field code is checked and the walk must end exactly at the end of the message. Group-mods are also built top-down; NAT and conntrack builders are driven through double-set and order-dependent histories. Add / grow-the-child / add histories are replayed on instructions, and the library's re-encodings of parsed (decodable) messages, bundle properties included, are walked as well.",
          'Trusts the walker (harness/spec/ofdec.go, validated self-inverse against the reference encoder). Builder histories are bottom-up.',
          "5/C02"),
  "C03": (True,
          'runtime monitor: differential check of the real encoders against an independent reference encoder and decoder',
-         "Each generated recipe is built through the API and its encoding is compared byte for byte with the reference encoder; on a difference the independent decoder names every differing field (so one known difference cannot hide another). Boundary-biased values in every field make a value written into a neighbour's slot visible.",
+         "Each generated recipe is built through the API and its encoding is compared byte for byte with the reference encoder; on a difference the independent decoder names every differing field (so one known difference cannot hide another). Boundary-biased values in every field make a value written into a neighbour's slot visible. Field values include the library's own constructor defaults (learned at start-up) and the integer constants of the tree under test (value dictionary).",
          'Trusts the reference model (SPEC_NOTES.md). Two known findings (OF1.0-shaped port/queue stats request bodies) are listed in KNOWN_FINDINGS.txt and re-executed on every run.',
          "5/C03"),
  "C04": (True,
          'runtime monitor: wire-first differential check - reference encoder writes conformant switch messages, the real parser reads them, extracted fields are compared with the recipe',
-         "Conformant switch-originated frames of every kind are produced by the independent encoder and given to the library's parser entry point; exported fields (and unexported ones by reflection) are extracted and compared field by field with the recipe, every differing field being reported separately.",
+         "Conformant switch-originated frames of every kind are produced by the independent encoder and given to the library's parser entry point; exported fields (and unexported ones by reflection) are extracted and compared field by field with the recipe, every differing field being reported separately. Saturated replies (more than a thousand records, matches of thousands of fields) and version-negotiation frames (hello and hello-failed errors with other version bytes) are included.",
          'Trusts the reference encoder as the description of a conforming switch. Known findings (OF1.0-shaped table/port/queue stats replies, dropped echo bodies, data-less packet-in, priority-tagged frames) are listed with witnesses.',
          "5/C04"),
  "C05": (True,
          "runtime monitor: metamorphic round trip on the library alone (decode(encode(v)) == v, re-encoding byte-equal, decoded extent == bytes) through the library's own dispatchers, alone and with trailing elements, under the totality guard",
-         "Values of every two-way kind are built through the API, encoded, decoded by the dispatcher the library itself uses (parser entry point, DecodeAction, DecodeInstr, match/match-field decoders, multipart body decoders), and the decoded value's fields, re-encoding and reported extent are compared with the original; whole messages are also decoded into the value their constructor hands out.",
+         "Values of every two-way kind are built through the API, encoded, decoded by the dispatcher the library itself uses (parser entry point, DecodeAction, DecodeInstr, match/match-field decoders, multipart body decoders), and the decoded value's fields, re-encoding and reported extent are compared with the original; whole messages are also decoded into the value their constructor hands out. Saturated messages of both directions are included.",
          'Two-way kinds only (the library has a decoder case). Representation-only differences are normalised. Decoders run under CPU/allocation budgets.',
          "5/C05"),
  "C06": (True,
          'runtime monitor: size = bytes and child-embedding assertions on values of all 123 encodable types found by scanning the source',
-         "Every encodable type in the four packages (the list is recomputed from /repo with go/parser on every run and uncovered types are reported) is reached by generated values; for each value and recursively each child the monitor asserts len(encoding) == Len() and that the parent's bytes are header + the children's own standalone encodings in order + zero padding, and that a value's own byte payload appears complete in its encoding. Top-level messages are also built top-down.",
+         "Every encodable type in the four packages (the list is recomputed from /repo with go/parser on every run and uncovered types are reported) is reached by generated values; for each value and recursively each child the monitor asserts len(encoding) == Len() and that the parent's bytes are header + the children's own standalone encodings in order + zero padding, and that a value's own byte payload appears complete in its encoding. Top-level messages are also built top-down. Action-list instructions are also switched between write/apply/clear after they were filled; saturated messages are included.",
          "Only parents' fixed header sizes come from the reference model. Well-formed values only.",
          "5/C06"),
  "C07": (True,
          'runtime monitor: totality monitor (panic / CPU-time budget / allocation budget / neither-message-nor-error) around the real parser entry point on structure-aware hostile variants of conformant frames, in sacrificial worker processes',
-         "Conformant frames of every switch- and controller-originated kind (written by the independent reference encoder) are turned into tens of millions of hostile variants per run - every truncation, boundary values in every byte and every 16/32-bit word at every offset (so every length/count/type/class field takes 0, 1, maximum and off-by-one values), deletions, duplications, extensions to 65535 bytes, random corruption, second-generation variants of accepted variants, and all tiny inputs - and each is given to the parser entry point under a monitor that reports a panic, more than 4 CPU-seconds, an allocation above 4 MiB + 1024 x input length, or a (nil, nil) result. A wedged call poisons only its worker process, which is restarted behind the case.",
+         "Conformant frames of every switch- and controller-originated kind (written by the independent reference encoder) are turned into tens of millions of hostile variants per run - every truncation, boundary values in every byte and every 16/32-bit word at every offset (so every length/count/type/class field takes 0, 1, maximum and off-by-one values), deletions, duplications, extensions to 65535 bytes, random corruption, second-generation variants of accepted variants, and all tiny inputs - and each is given to the parser entry point under a monitor that reports a panic, more than 4 CPU-seconds, an allocation above 4 MiB + 1024 x input length, or a (nil, nil) result. A wedged call poisons only its worker process, which is restarted behind the case. The sweep also uses the value dictionary of the tree under test: inputs cut or zero-padded to its constants (and to 46/60/64), zero tails, its constants as 8/16/32-bit fields at every offset, its byte-sequence literals spliced in followed by the truncations behind them.",
          'Budgets are generous linear bounds (a slower-than-linear decoder inside them is not detected). Holds for the generated inputs only.',
          "5/C07"),
  "C08": (True,
          'runtime monitor: the same totality monitor around each of the 24 packet-header decoder entry points (and the packet-in path) on hostile variants of well-formed packets',
-         "For every decoder entry point separately, well-formed packets written by the reference packet encoder (all payload and extension-header chains, option/source/record counts, up to jumbo size) are mutated as for C07, with the byte and word value tables chosen to hit 8- and 16-bit wrap-around of derived sizes (HEL 255, option length 254/255, 16384 sources, IHL 0..15), plus pure random inputs; each call runs under the panic / CPU / allocation monitor.",
+         "For every decoder entry point separately, well-formed packets written by the reference packet encoder (all payload and extension-header chains, option/source/record counts, up to jumbo size) are mutated as for C07, with the byte and word value tables chosen to hit 8- and 16-bit wrap-around of derived sizes (HEL 255, option length 254/255, 16384 sources, IHL 0..15), plus pure random inputs; each call runs under the panic / CPU / allocation monitor. The sweep also uses the value dictionary of the tree under test (sizes, field values, byte sequences, zero tails), and accepted variants of these classes serve as additional second-generation bases.",
          'Budgets are generous linear bounds. Holds for the generated inputs only.',
          "5/C08"),
  "C09": (True,
          'runtime monitor: differential (library encoder vs RFC reference layout; library decoder on reference bytes vs recipe) and metamorphic (round trip, re-encode, extent) assertions, with every packed bit-field group swept exhaustively against all-zero and all-ones neighbours',
-         "Each packed group (VLAN TCI, IPv4 version/IHL, DSCP/ECN, flags/fragment offset, IPv6 version/class/flow label, TCP offset/flags, fragment offset/M, IGMPv3 S/QRV) is enumerated completely on every run with its neighbours at zero and at all-ones, and tens of thousands of generated well-formed headers of every kind, payload chain, extension-header chain and option/source/record count are encoded by the library and compared with the independent RFC-layout encoder, decoded from the reference bytes and compared field by field (payload kinds included, which checks the demultiplexing), re-encoded and sized.",
+         "Each packed group (VLAN TCI, IPv4 version/IHL, DSCP/ECN, flags/fragment offset, IPv6 version/class/flow label, TCP offset/flags, fragment offset/M, IGMPv3 S/QRV) is enumerated completely on every run with its neighbours at zero and at all-ones, and tens of thousands of generated well-formed headers of every kind, payload chain, extension-header chain and option/source/record count are encoded by the library and compared with the independent RFC-layout encoder, decoded from the reference bytes and compared field by field (payload kinds included, which checks the demultiplexing), re-encoded and sized. Every header is also decoded into a value that held another header of the same kind before, the input buffer is overwritten after decoding before anything is compared, and DHCP/LLDP Write must report the bytes consumed.",
          'Trusts the reference packet encoder. Well-formed headers only. One known finding (priority tags, VLAN id 0) is listed with a witness; TCP/IGMP payloads may be typed or opaque.',
          "5/C09"),
  "C10": (True,
          'runtime monitor: event log at the stream boundary (scripted connection, consumer) on one logical clock, checked offline for exactly-once, integrity, causality, no-loss at logical quiescence, single error publication, buffer conservation and post-delivery immutability; Go race detector',
-         "Thousands of real MessageStreams are run over a scripted in-memory connection that cuts the byte stream by plan (every byte alone, inside each length prefix, mid-body, many frames per read), with eager/slow/bursty consumers, yields around parser calls, GOMAXPROCS 1..16 and connection failures after planned bytes. Each delivered message must equal the direct parse of exactly one frame, once, after the read that completed it; with the connection open nothing may be missing when every goroutine is parked and the buffer pool must be whole; on failure exactly the injected error is published once; every delivered message is re-dumped at the end. The race detector watches the whole run.",
+         "Thousands of real MessageStreams are run over a scripted in-memory connection that cuts the byte stream by plan (every byte alone, inside each length prefix, mid-body, many frames per read), with eager/slow/bursty consumers, yields around parser calls, GOMAXPROCS 1..16 and connection failures after planned bytes. Each delivered message must equal the direct parse of exactly one frame, once, after the read that completed it; with the connection open nothing may be missing when every goroutine is parked and the buffer pool must be whole; on failure exactly the injected error is published once; every delivered message is re-dumped at the end. The race detector watches the whole run. One case in nine runs in virtual time (testing/synctest under the pre-installed go1.26.8): the consumer stays away for a second to a day between deliveries while every timer the library arms fires in logical order; reads that return no bytes and no error are part of the plans; a constructor that never returns is a verdict.",
          'Schedules are those the Go scheduler produced under the pacing plans (evidence reports distinct delivery orders, concurrent parsers, pool generations). Delivery of frames completed before a failure is not demanded. Pool conservation reads unexported state by reflection and is skipped (reported) if the layout changes.',
          "5/C10"),
  "C11": (True,
          'runtime monitor: every Write of the real writer goroutine is recorded by the scripted connection; the written byte stream is re-framed and compared offline with the expected multiset and per-producer order; Go race detector',
-         "1..64 producer goroutines submit uniquely identified messages of all sizes to a real MessageStream; the recorded written bytes are re-framed by header length and must be exactly the expected encodings, each once, contiguous, with each producer's sequence numbers increasing; nothing may be missing at logical quiescence.",
+         "1..64 producer goroutines submit uniquely identified messages of all sizes to a real MessageStream; the recorded written bytes are re-framed by header length and must be exactly the expected encodings, each once, contiguous, with each producer's sequence numbers increasing; nothing may be missing at logical quiescence. The stream's exported Version field is set, raw pre-encoded frames with other version bytes are submitted, and submitted objects are re-encoded after the run (sending must not change them).",
          "Expected bytes are the library's own encoding of a twin. No write errors are injected (the writer exits the process on error by design).",
          "5/C11"),
  "C12": (True,
          'runtime monitors: reflective object-graph walk for slices aliasing the input array, and differential dump/re-encoding before and after overwriting the input',
-         "Every parseable frame kind (incl. packet-in payload chains, vendor and bundle nesting) is parsed from a window of a larger array; monitor A reports any slice in the result's object graph whose backing array overlaps the input array; monitor B overwrites the whole array twice and requires the deep dump and the re-encoding to be unchanged.",
+         "Every parseable frame kind (incl. packet-in payload chains, vendor and bundle nesting) is parsed from a window of a larger array; monitor A reports any slice in the result's object graph whose backing array overlaps the input array; monitor B overwrites the whole array twice and requires the deep dump and the re-encoding to be unchanged. The same monitors run on whatever else the parser accepts: bundle-adds around message kinds the library does not decode and a PRNG-chosen handful of hostile variants of every fourth frame.",
          'Only what is reachable from the parser entry point. The walk covers what reflection reaches (unexported fields included).',
          "5/C12"),
  "C13": (True,
          'runtime monitor: all histories over {size query, encode} up to length 4 plus longer PRNG histories on fresh builds; outputs compared across histories; children re-encoded after their containers',
-         "For each recipe fresh values go through all 30 short histories and PRNG histories of size queries and encodings; every size answer and every encoding must agree across all histories, and children's standalone encodings must be unchanged after their containers were sized/encoded twice. Also: history independence (encode, edit exported fields, encode again = edit, encode), the previous case's value re-encoded after everything the current case did, decoders run on other constructor-made values in between, constructor-default and hand-built (derived fields unset) values.",
+         "For each recipe fresh values go through all 30 short histories and PRNG histories of size queries and encodings; every size answer and every encoding must agree across all histories, and children's standalone encodings must be unchanged after their containers were sized/encoded twice. Also: history independence (encode, edit exported fields, encode again = edit, encode), the previous case's value re-encoded after everything the current case did, decoders run on other constructor-made values in between, constructor-default and hand-built (derived fields unset) values. Containers are also sized and encoded repeatedly around pre-encoded raw children (util.Buffer with a stale length field of its own), which must still hold the bytes they were given.",
          'Compares outputs only (never internal state); values complete before the first query.',
          "5/C13"),
  "C14": (True,
